@@ -491,6 +491,14 @@ func (f *Func) reachTarget(
 						log.Trace("setting node value", "value", r.Value)
 						v.Value = r.Value
 					}
+
+					// A named value that follows another named value is one
+					// without a subtype taking the value of the same-named
+					// value that has one.
+					if r, ok := prev.(*valueVertex); ok {
+						log.Trace("setting node value", "value", r.Value)
+						v.Value = r.Value
+					}
 				}
 
 				// Store the last viewed vertex in our path state
